@@ -7,7 +7,7 @@ if [ -n "$(git -C /repo status --porcelain)" ]; then echo "refusing: /repo has u
 git -C /repo apply "$patch" || { echo "patch does not apply: $patch"; exit 3; }
 ok=0
 for p in "$@"; do
-  out=$(timeout 600 /verif/bin/govc check --property "$p" 2>&1); rc=$?
+  out=$(GOVC_EVIDENCE_DIR=$(mktemp -d /tmp/govc-ev.XXXXXX) timeout 600 /verif/bin/govc check --property "$p" 2>&1); rc=$?
   nviol=$(echo "$out" | grep -c '^VIOLATION')
   echo "  $p: exit=$rc violations=$nviol  $(echo "$out" | grep -m2 'failed obligation' | tr '\n' ' ' | cut -c1-220)"
   if [ $rc -ne 1 ] || [ $nviol -eq 0 ]; then ok=1; fi
